@@ -89,7 +89,10 @@ end
 def evalE (cx : Ctx) (e : E) : Raw := resultVal (evalW cx (toW cx e))
 
 /-- model of `parse("SELECT <e>")["select"]["value"]` under configuration `c` and `null = x` -/
-def parseE (cx : Ctx) (c : Cfg) (x : J) (e : E) : J := Scrub.run c x (evalE cx e)
+def parseE (cx : Ctx) (c : Cfg) (x : J) (e : E) : J :=
+  match Scrub.run c x (.dict [("value", evalE cx e)]) with
+  | .obj kvs => (J.getKey kvs "value").getD .null
+  | j => j
 
 /-! ### rendering (every token separated by one space) -/
 mutual
